@@ -100,12 +100,12 @@ func (C2) g() {}
 // CHECK-NEXT:   %14 = insertvalue %"{{.*}}/runtime/internal/runtime.eface" undef, ptr %13, 0
 // CHECK-NEXT:   %15 = insertvalue %"{{.*}}/runtime/internal/runtime.eface" %14, ptr null, 1
 // CHECK-NEXT:   %16 = call ptr @"{{.*}}/runtime/internal/runtime.IfaceType"(%"{{.*}}/runtime/internal/runtime.iface" zeroinitializer)
-// CHECK-NEXT:   %17 = call ptr @"{{.*}}/runtime/internal/runtime.NewItab"(ptr @"{{.*}}/cl/_testgo/ifaceconv.iface$brpgdLtIeRlPi8QUoTgPCXzlehUkncg7v9aITo-GsF4", ptr %16)
+// CHECK-NEXT:   %17 = call ptr @"{{.*}}/runtime/internal/runtime.NewItab"(ptr @"{{.*}}/cl/_testgo/ifaceconv.iface$Uv9vsIhP2tFoLvVa0nsnlBoBP4ntHQZ-JgGcFMDxAmI", ptr %16)
 // CHECK-NEXT:   %18 = insertvalue %"{{.*}}/runtime/internal/runtime.iface" undef, ptr %17, 0
 // CHECK-NEXT:   %19 = insertvalue %"{{.*}}/runtime/internal/runtime.iface" %18, ptr null, 1
 // CHECK-NEXT:   %20 = call ptr @"{{.*}}/runtime/internal/runtime.AllocU"(i64 0)
 // CHECK-NEXT:   store %"{{.*}}/cl/_testgo/ifaceconv.C1" zeroinitializer, ptr %20, align 1
-// CHECK-NEXT:   %21 = call ptr @"{{.*}}/runtime/internal/runtime.NewItab"(ptr @"{{.*}}/cl/_testgo/ifaceconv.iface$brpgdLtIeRlPi8QUoTgPCXzlehUkncg7v9aITo-GsF4", ptr @"_llgo_{{.*}}/cl/_testgo/ifaceconv.C1")
+// CHECK-NEXT:   %21 = call ptr @"{{.*}}/runtime/internal/runtime.NewItab"(ptr @"{{.*}}/cl/_testgo/ifaceconv.iface$Uv9vsIhP2tFoLvVa0nsnlBoBP4ntHQZ-JgGcFMDxAmI", ptr @"_llgo_{{.*}}/cl/_testgo/ifaceconv.C1")
 // CHECK-NEXT:   %22 = insertvalue %"{{.*}}/runtime/internal/runtime.iface" undef, ptr %21, 0
 // CHECK-NEXT:   %23 = insertvalue %"{{.*}}/runtime/internal/runtime.iface" %22, ptr %20, 1
 // CHECK-NEXT:   %24 = call ptr @"{{.*}}/runtime/internal/runtime.IfaceType"(%"{{.*}}/runtime/internal/runtime.iface" %23)
@@ -146,7 +146,7 @@ func (C2) g() {}
 // CHECK-NEXT: _llgo_12:                                         ; preds = %_llgo_40
 // CHECK-NEXT:   %36 = call ptr @"{{.*}}/runtime/internal/runtime.AllocU"(i64 0)
 // CHECK-NEXT:   store %"{{.*}}/cl/_testgo/ifaceconv.C2" zeroinitializer, ptr %36, align 1
-// CHECK-NEXT:   %37 = call ptr @"{{.*}}/runtime/internal/runtime.NewItab"(ptr @"{{.*}}/cl/_testgo/ifaceconv.iface$brpgdLtIeRlPi8QUoTgPCXzlehUkncg7v9aITo-GsF4", ptr @"_llgo_{{.*}}/cl/_testgo/ifaceconv.C2")
+// CHECK-NEXT:   %37 = call ptr @"{{.*}}/runtime/internal/runtime.NewItab"(ptr @"{{.*}}/cl/_testgo/ifaceconv.iface$Uv9vsIhP2tFoLvVa0nsnlBoBP4ntHQZ-JgGcFMDxAmI", ptr @"_llgo_{{.*}}/cl/_testgo/ifaceconv.C2")
 // CHECK-NEXT:   %38 = insertvalue %"{{.*}}/runtime/internal/runtime.iface" undef, ptr %37, 0
 // CHECK-NEXT:   %39 = insertvalue %"{{.*}}/runtime/internal/runtime.iface" %38, ptr %36, 1
 // CHECK-NEXT:   %40 = call ptr @"{{.*}}/runtime/internal/runtime.IfaceType"(%"{{.*}}/runtime/internal/runtime.iface" %39)
@@ -187,7 +187,7 @@ func (C2) g() {}
 // CHECK-NEXT: _llgo_18:                                         ; preds = %_llgo_49
 // CHECK-NEXT:   %52 = call ptr @"{{.*}}/runtime/internal/runtime.AllocU"(i64 0)
 // CHECK-NEXT:   store %"{{.*}}/cl/_testgo/ifaceconv.C1" zeroinitializer, ptr %52, align 1
-// CHECK-NEXT:   %53 = call ptr @"{{.*}}/runtime/internal/runtime.NewItab"(ptr @"{{.*}}/cl/_testgo/ifaceconv.iface$brpgdLtIeRlPi8QUoTgPCXzlehUkncg7v9aITo-GsF4", ptr @"_llgo_{{.*}}/cl/_testgo/ifaceconv.C1")
+// CHECK-NEXT:   %53 = call ptr @"{{.*}}/runtime/internal/runtime.NewItab"(ptr @"{{.*}}/cl/_testgo/ifaceconv.iface$Uv9vsIhP2tFoLvVa0nsnlBoBP4ntHQZ-JgGcFMDxAmI", ptr @"_llgo_{{.*}}/cl/_testgo/ifaceconv.C1")
 // CHECK-NEXT:   %54 = insertvalue %"{{.*}}/runtime/internal/runtime.iface" undef, ptr %53, 0
 // CHECK-NEXT:   %55 = insertvalue %"{{.*}}/runtime/internal/runtime.iface" %54, ptr %52, 1
 // CHECK-NEXT:   %56 = call ptr @"{{.*}}/runtime/internal/runtime.IfaceType"(%"{{.*}}/runtime/internal/runtime.iface" %55)
@@ -296,7 +296,7 @@ func (C2) g() {}
 // CHECK-EMPTY:
 // CHECK-NEXT: _llgo_38:                                         ; preds = %_llgo_10
 // CHECK-NEXT:   %95 = extractvalue %"{{.*}}/runtime/internal/runtime.iface" %23, 1
-// CHECK-NEXT:   %96 = call ptr @"{{.*}}/runtime/internal/runtime.NewItab"(ptr @"{{.*}}/cl/_testgo/ifaceconv.iface$gZBF8fFlqIMZ9M6lT2VWPyc3eu5Co6j0WoKGIEgDPAw", ptr %32)
+// CHECK-NEXT:   %96 = call ptr @"{{.*}}/runtime/internal/runtime.NewItab"(ptr @"{{.*}}/cl/_testgo/ifaceconv.iface$cC-SZJSSF9oqYdQTz-62woIWucYdyHvjiXIkhYoqdLE", ptr %32)
 // CHECK-NEXT:   %97 = insertvalue %"{{.*}}/runtime/internal/runtime.iface" undef, ptr %96, 0
 // CHECK-NEXT:   %98 = insertvalue %"{{.*}}/runtime/internal/runtime.iface" %97, ptr %95, 1
 // CHECK-NEXT:   %99 = insertvalue { %"{{.*}}/runtime/internal/runtime.iface", i1 } undef, %"{{.*}}/runtime/internal/runtime.iface" %98, 0
@@ -345,7 +345,7 @@ func (C2) g() {}
 // CHECK-EMPTY:
 // CHECK-NEXT: _llgo_47:                                         ; preds = %_llgo_16
 // CHECK-NEXT:   %117 = extractvalue %"{{.*}}/runtime/internal/runtime.iface" %39, 1
-// CHECK-NEXT:   %118 = call ptr @"{{.*}}/runtime/internal/runtime.NewItab"(ptr @"{{.*}}/cl/_testgo/ifaceconv.iface$gZBF8fFlqIMZ9M6lT2VWPyc3eu5Co6j0WoKGIEgDPAw", ptr %48)
+// CHECK-NEXT:   %118 = call ptr @"{{.*}}/runtime/internal/runtime.NewItab"(ptr @"{{.*}}/cl/_testgo/ifaceconv.iface$cC-SZJSSF9oqYdQTz-62woIWucYdyHvjiXIkhYoqdLE", ptr %48)
 // CHECK-NEXT:   %119 = insertvalue %"{{.*}}/runtime/internal/runtime.iface" undef, ptr %118, 0
 // CHECK-NEXT:   %120 = insertvalue %"{{.*}}/runtime/internal/runtime.iface" %119, ptr %117, 1
 // CHECK-NEXT:   %121 = insertvalue { %"{{.*}}/runtime/internal/runtime.iface", i1 } undef, %"{{.*}}/runtime/internal/runtime.iface" %120, 0
